@@ -3,9 +3,12 @@
 (* desper.model.DirectoryResourcePopulator filling a ResourceMap (C16).    *)
 (*                                                                         *)
 (* A behaviour: Init picks a *scenario* (directory tree, constructor       *)
-(* options, one or two populate calls each with the rules added before it  *)
-(* and its per-call options); Call(c) is one `populator(resource_map, ...)`*)
-(* computed the way __call__ does it.                                      *)
+(* options, one to three populate calls of the same populator, each with   *)
+(* the rules added before it, its per-call options and whether it fills    *)
+(* the same map or a new one); Call(c) is one `populator(resource_map,...)`*)
+(* computed the way __call__ does it.  The populator itself has no state   *)
+(* besides its rules: an option given to one call must not leak into the   *)
+(* next (CallNest / CallTrim read the scenario only).                      *)
 (*                                                                         *)
 (* Operational layer (shaped like desper/model/__init__.py:136-183 over    *)
 (* the tables of desper/model/tree.py): `maps` = the sub-maps reachable    *)
@@ -70,6 +73,9 @@ KeyPath(p, trim) == Front(p) \o <<KeyName(Last(p), trim)>>      \* key of the *f
 Eff(o, dflt) == IF o = "N" THEN dflt ELSE o = "T"               \* None falls back to the constructor's value
 CallNest(c) == Eff(sc.calls[c].n, sc.cn)
 CallTrim(c) == Eff(sc.calls[c].t, sc.ct)
+\* the populator outlives its maps: the calls listed in sc.fresh populate a new, empty map
+Since(n) == LET F == {c \in sc.fresh : c <= n} IN
+            IF F = {} THEN 1 ELSE CHOOSE c \in F : \A d \in F : d <= c    \* first call on the current map
 RECURSIVE RulesAt(_)
 RulesAt(c) == IF c = 0 THEN <<>> ELSE RulesAt(c - 1) \o sc.calls[c].add    \* add_rule appends
 
@@ -153,7 +159,7 @@ Accepted(rule) == {p \in Files : Len(p) > Len(rule.dir) /\ Under(rule.dir, p)
 \* group is the file system's
 RECURSIVE Gens(_, _, _)
 Gens(c, i, K) ==
-    IF c = 0 THEN <<>>
+    IF c < Since(k) THEN <<>>                                    \* earlier calls filled other maps
     ELSE IF i = 0 THEN Gens(c - 1, Len(RulesAt(c - 1)), K)
     ELSE LET g == IF i \in Done(c)
                   THEN {Handle(c, i, p) : p \in {q \in Accepted(RulesAt(c)[i]) : KeyPath(q, CallTrim(c)) = K}}
@@ -171,7 +177,7 @@ ExpCols(gs) ==
 \* sub-maps: every directory on the way to an accepted file must be one; directories under a populating
 \* rule's directory (and those leading to it) may be one - the statement does not say whether empty or
 \* filtered-out directories appear, so neither reading is demanded
-DoneRules(n) == UNION {{RulesAt(c)[i] : i \in Done(c)} : c \in 1..n}
+DoneRules(n) == UNION {{RulesAt(c)[i] : i \in Done(c)} : c \in Since(n)..n}
 Required(n) == {<<>>} \cup UNION {UNION {Prefixes(Front(p)) : p \in Accepted(rule)} : rule \in DoneRules(n)}
 Allowed(n) == {<<>>} \cup UNION {Prefixes(rule.dir) \cup {p \in Dirs : Under(rule.dir, p)} : rule \in DoneRules(n)}
 ExpectedMade(c) == IF c = 0 THEN {}
@@ -186,12 +192,14 @@ Init == /\ (\E fam \in DOMAIN Scenarios : sc \in Scenarios[fam]) /\ DomainOK
         /\ reqMaps = {<<>>} /\ okMaps = {<<>>}
 
 Call(c) == /\ c = k + 1 /\ c <= Len(sc.calls)
-           /\ \E out \in Run([maps |-> maps, layers |-> layers, made |-> {}, exc |-> "ok"], c, 1) :
+           /\ \E out \in Run(IF c \in sc.fresh
+                             THEN [maps |-> {<<>>}, layers |-> (<<>> :> <<NoLayer>>), made |-> {}, exc |-> "ok"]
+                             ELSE [maps |-> maps, layers |-> layers, made |-> {}, exc |-> "ok"], c, 1) :
                  maps' = out.maps /\ layers' = out.layers /\ made' = out.made /\ exc' = out.exc
            /\ k' = c /\ reqMaps' = Required(c) /\ okMaps' = Allowed(c)
            /\ UNCHANGED sc
 
-Next == \E c \in 1..2 : Call(c)
+Next == \E c \in 1..3 : Call(c)
 Spec == Init /\ [][Next]_vars
 
 (***************************************************************************)
@@ -232,9 +240,9 @@ ErrorsAsStated == exc = ExpectedExc(k)
 
 \* the same two clauses about conflicts as action properties over one call
 NestKeepsOlderBeneath ==
-    [][CallNest(k') => \A K \in AllKeys' : IsSuffix(Column(K), Column(K)')]_vars
+    [][(CallNest(k') /\ k' \notin sc.fresh) => \A K \in AllKeys' : IsSuffix(Column(K), Column(K)')]_vars
 NoNestReplaces ==
-    [][~CallNest(k') => \A K \in AllKeys' :
+    [][(~CallNest(k') /\ k' \notin sc.fresh) => \A K \in AllKeys' :
           LET o == Column(K)
               n == Column(K)' IN
           n = o \/ (n # <<>> /\ n[1].c = k' /\ Tail(n) = (IF o = <<>> THEN <<>> ELSE Tail(o)))]_vars
